@@ -575,7 +575,10 @@ def regenerate(target_ids, repo):
                 trees[src_path] = ast.parse(open(src_path).read())
             text, sha = spec['build'](trees[src_path])
             info['sha256'] = sha
-            full = HEADER + text + FOOTER
+            # optional per-target extra imports (spec key 'imports': list of Lean module names)
+            hdr = HEADER.replace('import HdVerif.Model.Basic\n', 'import HdVerif.Model.Basic\n' + ''.join(
+                f'import {m}\n' for m in spec.get('imports', [])))
+            full = hdr + text + FOOTER
             old = open(path).read() if os.path.exists(path) else None
             if old != full:
                 tmp = path + '.tmp'
